@@ -3271,3 +3271,202 @@ func ruleNormalizeTwins(prog *Program, rep *Report) {
 	}
 	rep.Eval(cells)
 }
+
+// ---------------------------------------------------------------- B-pushpair
+
+// rulePushPair: in the first pass of a descent the evaluators push every container child as a
+// pair: the value, then a frame `fi|descentChildFlag` that tells the second pass which fragment
+// the value belongs to. A value pushed without its frame is read as belonging to whatever frame
+// lies above it. In every statement list inside a `case Descent:` clause that pushes a frame
+// with descentChildFlag, each value push is directly followed by such a frame push.
+func rulePushPair(prog *Program, rep *Report, inScope func(fd *ast.FuncDecl) bool, floor int) {
+	rep.Rules = append(rep.Rules, "B-pushpair: inside every `case Descent:` clause of package jp, in each statement list that pushes a child frame (an integer expression with descentChildFlag) onto the traversal stack, every push of a value is directly followed by such a frame push: no child is left without the frame that names its fragment")
+	pk := prog.Pkg("jp")
+	if pk == nil {
+		rep.Errorf("B-pushpair: package jp not loaded")
+		return
+	}
+	info := pk.TypesInfo
+	lists := 0
+	for _, f := range pk.Syntax {
+		if strings.HasSuffix(prog.Fset.Position(f.Pos()).Filename, "_test.go") {
+			continue
+		}
+		for _, d := range f.Decls {
+			fd, ok := d.(*ast.FuncDecl)
+			if !ok || fd.Body == nil || (inScope != nil && !inScope(fd)) {
+				continue
+			}
+			idx := 0
+			ast.Inspect(fd.Body, func(n ast.Node) bool {
+				cc, ok := n.(*ast.CaseClause)
+				if !ok || len(cc.List) != 1 || types.ExprString(cc.List[0]) != "Descent" {
+					return true
+				}
+				push := func(st ast.Stmt) (isPush, isFrame bool) {
+					as, ok := st.(*ast.AssignStmt)
+					if !ok || len(as.Lhs) != 1 || len(as.Rhs) != 1 {
+						return
+					}
+					call, ok := as.Rhs[0].(*ast.CallExpr)
+					if !ok || len(call.Args) != 2 {
+						return
+					}
+					if id, ok := call.Fun.(*ast.Ident); !ok || id.Name != "append" || types.ExprString(call.Args[0]) != types.ExprString(as.Lhs[0]) {
+						return
+					}
+					isPush = true
+					isFrame = strings.Contains(types.ExprString(call.Args[1]), "descentChildFlag")
+					return
+				}
+				for _, body := range cc.Body {
+					ast.Inspect(body, func(k ast.Node) bool {
+						var list []ast.Stmt
+						switch b := k.(type) {
+						case *ast.BlockStmt:
+							list = b.List
+						case *ast.CaseClause:
+							list = b.Body
+						default:
+							return true
+						}
+						hasFrame := false
+						for _, st := range list {
+							if _, fr := push(st); fr {
+								hasFrame = true
+							}
+						}
+						if !hasFrame {
+							// a list that pushes values only: it must not sit next to sibling lists (clauses of
+							// the same switch) that pair their pushes
+							return true
+						}
+						lists++
+						for i, st := range list {
+							p, fr := push(st)
+							if !p || fr {
+								continue
+							}
+							if i+1 < len(list) {
+								if _, fr2 := push(list[i+1]); fr2 {
+									continue
+								}
+							}
+							idx++
+							rep.Violate(Finding{Rule: "B-pushpair", Key: fmt.Sprintf("jp.%s:value-without-frame#%d", funcKey(fd), idx), Pos: prog.Pos(st.Pos()), Msg: funcKey(fd) + " pushes a child value in a descent without the frame that names its fragment right after it"})
+						}
+						return true
+					})
+				}
+				// the first pass (`if (di & descentFlag) == 0 {`): every value pushed onto the stack named by the
+				// frame pushes is paired, whichever list it sits in
+				stackName := ""
+				for _, body := range cc.Body {
+					ast.Inspect(body, func(k ast.Node) bool {
+						if st, ok := k.(ast.Stmt); ok {
+							if _, fr := push(st); fr {
+								stackName = types.ExprString(st.(*ast.AssignStmt).Lhs[0])
+							}
+						}
+						return true
+					})
+				}
+				for _, body := range cc.Body {
+					ast.Inspect(body, func(k ast.Node) bool {
+						is, ok := k.(*ast.IfStmt)
+						if !ok || stackName == "" {
+							return true
+						}
+						ct := strings.ReplaceAll(types.ExprString(is.Cond), " ", "")
+						if !strings.Contains(ct, "descentFlag)==0") {
+							return true
+						}
+						ast.Inspect(is.Body, func(q ast.Node) bool {
+							var list []ast.Stmt
+							switch b := q.(type) {
+							case *ast.BlockStmt:
+								list = b.List
+							case *ast.CaseClause:
+								list = b.Body
+							default:
+								return true
+							}
+							for i, st := range list {
+								p, fr := push(st)
+								if !p || fr || types.ExprString(st.(*ast.AssignStmt).Lhs[0]) != stackName {
+									continue
+								}
+								if i+1 < len(list) {
+									if _, fr2 := push(list[i+1]); fr2 {
+										continue
+									}
+								}
+								// the descent's own frame: append(stack, di|descentFlag) is not a child push
+								if strings.Contains(types.ExprString(st.(*ast.AssignStmt).Rhs[0]), "descentFlag") {
+									continue
+								}
+								idx++
+								rep.Violate(Finding{Rule: "B-pushpair", Key: fmt.Sprintf("jp.%s:first-pass-value-without-frame#%d", funcKey(fd), idx), Pos: prog.Pos(st.Pos()), Msg: funcKey(fd) + " pushes a child value in the first pass of a descent without the frame that names its fragment right after it"})
+							}
+							return true
+						})
+						return false
+					})
+				}
+				// sibling clauses of one inner switch: if some clause pairs, every clause that pushes a value pairs
+				for _, body := range cc.Body {
+					ast.Inspect(body, func(k ast.Node) bool {
+						var clauses []*ast.CaseClause
+						switch s := k.(type) {
+						case *ast.TypeSwitchStmt:
+							for _, c := range s.Body.List {
+								clauses = append(clauses, c.(*ast.CaseClause))
+							}
+						case *ast.SwitchStmt:
+							for _, c := range s.Body.List {
+								clauses = append(clauses, c.(*ast.CaseClause))
+							}
+						default:
+							return true
+						}
+						anyPair := false
+						for _, c := range clauses {
+							for _, st := range c.Body {
+								if _, fr := push(st); fr {
+									anyPair = true
+								}
+							}
+						}
+						if !anyPair {
+							return true
+						}
+						for _, c := range clauses {
+							vals, frames := 0, 0
+							for _, st := range c.Body {
+								if p, fr := push(st); p {
+									if fr {
+										frames++
+									} else {
+										vals++
+									}
+								}
+							}
+							if vals > 0 && frames == 0 {
+								idx++
+								rep.Violate(Finding{Rule: "B-pushpair", Key: fmt.Sprintf("jp.%s:clause-without-frame#%d", funcKey(fd), idx), Pos: prog.Pos(c.Pos()), Msg: funcKey(fd) + " has a clause that pushes a child value in a descent without any frame, next to sibling clauses that push value and frame"})
+							}
+						}
+						return true
+					})
+				}
+				return true
+			})
+		}
+	}
+	rep.Eval(lists)
+	rep.Discharge("B-pushpair", "jp", "jp", fmt.Sprintf("%d statement lists that push child frames examined", lists))
+	if lists < floor {
+		rep.Errorf("B-pushpair examined %d statement lists (floor %d)", lists, floor)
+	}
+	_ = info
+}
